@@ -4,16 +4,54 @@
    A design declares schemes (basic "b", API key "k", JWT "j", OAuth2 "o") and attaches requirement lists at
    API, service or method level; NoSecurity switches them off.  A requirement list is a sequence of
    alternative requirements, each a sequence of schemes that must ALL succeed (plus required scopes).
-   The generated endpoint calls the user's authorization callbacks:
+
+   HOW A CREDENTIAL TRAVELS.  Every used scheme has a credential attribute in the payload, a LOCATION where the
+   design puts it on the wire and a FORM the caller gives it:
+
+     location  "dflt"   no HTTP mapping: goa maps the attribute to the Authorization header implicitly
+                        (expr/http_endpoint.go Finalize, expr/http_body_types.go defaultRequestHeaderAttributes)
+               "auth"   Header("tok:Authorization")          (dsl/security.go: `Header("key:Authorization")`)
+               "hdr"    Header("tok:X-Tok"), a header of its own
+               "query"  Param("tok:t")
+               (basic auth always owns the Authorization header; goa's DSL documents header and query only - a
+                credential mapped with Cookie() is accepted and mapped to the Authorization header as well, and the
+                generated code does not compile: that is a C01 matter and not part of this envelope)
+     form      the text handed over, as the sequence of its words (the text is the words joined by single spaces,
+               so "Bearer  tok" is <<"Bearer", "", "tok">> and the empty text is <<"">>):
+               bare <<tok>>, bearer <<Bearer, tok>>, lower <<bearer, tok>>, other <<Token, tok>> (another scheme
+               word; for an API key: a key that contains a space), spaces <<Bearer, "", tok>>, empty, absent;
+               basic: bare <<Basic, b64(user:pass)>>, lower <<basic, ..>>, other <<Bearer, ..>>, malformed
+               <<Basic, garbage>>, absent
+     sender    the generated client (the form is the value of the payload attribute; the client writes
+               "Bearer " in front of a JWT / OAuth2 token that travels in the Authorization header and has no
+               space: request_encoder.go.tpl + isBearer) or a raw request (the form is the wire value)
+
+   THE DESIGN'S READING of what arrives (request_decoder.go.tpl; dsl/security.go "bearer token"):
+     * a header value reaches the server without leading / trailing white space (HTTP), a query value verbatim;
+     * basic: r.BasicAuth() - scheme word compared case-insensitively, base64 "user:pass"; anything else is "no
+       credentials";
+     * the value of the Authorization header (whatever the scheme kind) and a JWT / OAuth2 token in ANY header
+       may carry an authorization scheme word: when the value contains a space, the credential is what follows the
+       first space ("Bearer tok", "bearer tok", "Token tok" -> "tok"; the scheme word is not compared).  Further
+       spaces: goa keeps them ("Bearer  tok" -> " tok"); the statement of C06 ("scheme prefix removed") also
+       admits dropping them, so the oracle admits both;
+     * an API key in a header of its own and every credential in the query string are taken verbatim;
+     * an empty or absent value is "no credential": with a required credential attribute the request is refused
+       before any callback runs; with an optional one the callback receives the empty credential.
+
+   The generated endpoint then calls the user's authorization callbacks:
 
        requirement 1: scheme 1; then each further scheme only if no error so far
        requirement k>1: only if the previous requirement ended with an error
        finally: error -> return it, else call the service method
 
-   State: the effective requirement list, the callbacks' verdicts, cursor (ri, si), err, call log. *)
+   State: the configuration (levels, travel), the callbacks' verdicts, the wire credentials, the credentials the
+   decoder put in the payload, cursor (ri, si), err, call log. *)
 EXTENDS Integers, Sequences, FiniteSets, TLC
 
-CONSTANTS Deviations
+CONSTANTS Deviations,
+          Spaces,      \* which parts of the envelope Init draws from: "flow" (requirement placement x verdicts), "cred" (credential travel)
+          MaxOdd       \* cred space: at most this many schemes of a method travel in a form other than bare
 
 Schemes == {"b", "k", "j", "o"}
 \* the catalogue of requirement lists the envelope draws from: list of [schemes: Seq, scopes: Seq]
@@ -43,30 +81,118 @@ Effective(api, svc, met) ==
 
 UsedSchemes(eff) == UNION {{eff[i].schemes[j] : j \in 1..Len(eff[i].schemes)} : i \in 1..Len(eff)}
 
-VARIABLES cfg,       \* [api, svc, met: Level, keyloc: "header" | "query", keycred: "plain" | "space", tokcred: "plain" | "bearer"]
+---------------------------------------------------------------------------
+\* credential travel
+Locs == {"dflt", "auth", "hdr", "query"}
+TokForms == {"bare", "bearer", "lower", "other", "spaces", "empty", "absent"}
+BasicForms == {"bare", "lower", "other", "malformed", "absent"}
+FormsOf(s) == IF s = "b" THEN BasicForms ELSE TokForms
+SpacedForms == {"bearer", "lower", "other"}          \* forms that travel with one scheme word in front
+ClientForms(s, req) == IF s = "b" THEN {"bare"} ELSE IF req THEN TokForms \ {"absent"} ELSE TokForms   \* what a caller of the generated client can hand over
+Words(s, f) ==
+  IF s = "b"
+  THEN CASE f = "bare" -> <<"Basic", "userpass">> [] f = "lower" -> <<"basic", "userpass">> [] f = "other" -> <<"Bearer", "userpass">>
+         [] f = "malformed" -> <<"Basic", "garbage">> [] OTHER -> <<"">>
+  ELSE CASE f = "bare" -> <<"tok">> [] f = "bearer" -> <<"Bearer", "tok">> [] f = "lower" -> <<"bearer", "tok">> [] f = "other" -> <<"Token", "tok">>
+         [] f = "spaces" -> <<"Bearer", "", "tok">> [] OTHER -> <<"">>
+Bearerish(s) == s \in {"j", "o"}
+
+VARIABLES cfg,       \* [space, api, svc, met: Level, loc: [Schemes -> Locs], form: [Schemes -> forms], via: "client" | "raw", credreq: BOOLEAN]
           outcome,   \* [Schemes -> BOOLEAN] verdict of each scheme's callback
-          pc, ri, si, err, calls, invoked
-vars == <<cfg, outcome, pc, ri, si, err, calls, invoked>>
+          wire,      \* [Schemes -> [present: BOOLEAN, w: words]] what travels at each scheme's location
+          got,       \* [Schemes -> words] the credential the request decoder left in the payload
+          pc, ri, si, err, calls, invoked, rejected
+vars == <<cfg, outcome, wire, got, pc, ri, si, err, calls, invoked, rejected>>
 
 Eff == Effective(cfg.api, cfg.svc, cfg.met)
+Used == UsedSchemes(Eff)
+OnAuthz(s) == cfg.loc[s] \in {"dflt", "auth"}
+InHeader(s) == cfg.loc[s] # "query"
 
-\* what the callback of scheme s must receive as credential
-ExpectedCred(s) ==
-  CASE s = "b" -> "userpass"
-    [] s = "k" -> IF cfg.keycred = "space" /\ cfg.keyloc = "header" /\ "auth.header_scheme_prefix_stripped" \in Deviations
-                  THEN "key-after-space" ELSE "key"
-    [] s = "j" -> "token"                 \* with the "Bearer " prefix removed when the caller supplied one
-    [] s = "o" -> "accesstoken"
+\* ---- the configurations
+\* "flow": requirement lists at the three levels x verdict vectors; credentials travel the plain way (the API key in a
+\* header of its own or in the query string, possibly with a space inside; the JWT bare or as "Bearer tok")
+\* (records, not function constructors: TLC keeps [s \in S |-> e] unevaluated and would recompute e at every use)
+FlowLoc(used, kl) == [b |-> "dflt", k |-> IF "k" \in used THEN kl ELSE "dflt", o |-> IF "o" \in used THEN "query" ELSE "dflt",
+                      j |-> IF "j" \notin used THEN "dflt" ELSE IF "b" \in used THEN "hdr" ELSE "auth"]
+FlowCfgs ==
+  { [space |-> "flow", api |-> a, svc |-> v, met |-> m, loc |-> FlowLoc(UsedSchemes(Effective(a, v, m)), kl),
+     form |-> [b |-> "bare", k |-> kf, j |-> jf, o |-> "bare"], via |-> "client", credreq |-> TRUE] :
+      a \in {l \in Level : l.kind # "nosec"}, v \in {l \in Level : l.kind # "nosec"}, m \in Level,     \* NoSecurity is a method-level DSL
+      kl \in {"hdr", "query"}, kf \in {"bare", "other"}, jf \in {"bare", "bearer"} }
+FlowOK(c) == LET used == UsedSchemes(Effective(c.api, c.svc, c.met)) IN
+  /\ ("k" \notin used => c.loc["k"] = "dflt" /\ c.form["k"] = "bare")
+  /\ ("j" \notin used => c.form["j"] = "bare")
+  /\ ("k" \in used => c.loc["k"] # "dflt")
 
+\* "cred": every catalogue list at method level x every placement of the credentials (at most one scheme on the
+\* Authorization header) x forms (at most MaxOdd schemes not bare; two odd ones only with single scheme words: that is
+\* where one credential's reading could leak into another's) x sender x required / optional credential attributes
+Total(dom, f, dflt) == LET at(s) == IF s \in dom THEN f[s] ELSE dflt IN [b |-> at("b"), k |-> at("k"), j |-> at("j"), o |-> at("o")]
+CredCfgsOf(idx) ==
+  LET used == UsedSchemes(Catalogue[idx])
+      locsets == {lf \in [used -> Locs] : /\ Cardinality({s \in used : lf[s] \in {"dflt", "auth"}}) <= 1
+                                          /\ ("b" \in used => lf["b"] = "dflt")}
+      odds == {S \in SUBSET used : Cardinality(S) <= MaxOdd}
+  IN UNION { UNION { { [space |-> "cred", api |-> [kind |-> "unset", idx |-> 0], svc |-> [kind |-> "unset", idx |-> 0], met |-> [kind |-> "reqs", idx |-> idx],
+                        loc |-> Total(used, lf, "dflt"), form |-> Total(odd, ff, "bare"), via |-> via, credreq |-> rq] :
+                         ff \in {g \in [odd -> (TokForms \cup BasicForms) \ {"bare"}] :
+                                    /\ \A s \in odd : g[s] \in FormsOf(s)
+                                    /\ (Cardinality(odd) > 1 => \A s \in odd : g[s] \in SpacedForms)},
+                         via \in {"client", "raw"}, rq \in BOOLEAN }
+                   : odd \in odds } : lf \in locsets }
+CredOK(c) == c.via = "client" => \A s \in UsedSchemes(Effective(c.api, c.svc, c.met)) : c.form[s] \in ClientForms(s, c.credreq)
+CredCfgs == UNION {CredCfgsOf(i) : i \in 1..Len(Catalogue)}
+
+NoCred(c, s) == IF s = "b" THEN c.form[s] \notin {"bare", "lower"} ELSE c.form[s] \in {"empty", "absent"}
 Init ==
-  /\ cfg \in [api: Level, svc: Level, met: Level, keyloc: {"header", "query"}, keycred: {"plain", "space"}, tokcred: {"plain", "bearer"}]
-  /\ cfg.api.kind # "nosec" /\ cfg.svc.kind # "nosec"          \* NoSecurity is a method-level DSL
+  /\ \/ "flow" \in Spaces /\ cfg \in FlowCfgs /\ FlowOK(cfg)
+     \/ "cred" \in Spaces /\ cfg \in CredCfgs /\ CredOK(cfg)
   /\ outcome \in [Schemes -> BOOLEAN]
-  /\ \A s \in Schemes \ UsedSchemes(Effective(cfg.api, cfg.svc, cfg.met)) : outcome[s]      \* verdicts of unused schemes do not matter
-  /\ ("k" \notin UsedSchemes(Effective(cfg.api, cfg.svc, cfg.met)) => cfg.keyloc = "header" /\ cfg.keycred = "plain")
-  /\ ("j" \notin UsedSchemes(Effective(cfg.api, cfg.svc, cfg.met)) => cfg.tokcred = "plain")
-  /\ pc = "auth" /\ ri = 1 /\ si = 1 /\ err = "none" /\ calls = <<>> /\ invoked = FALSE
+  /\ LET used == UsedSchemes(Effective(cfg.api, cfg.svc, cfg.met)) IN
+       /\ \A s \in Schemes \ used : outcome[s]      \* verdicts of unused schemes do not matter
+       /\ cfg.space = "cred" => /\ Cardinality({s \in used : ~outcome[s]}) <= 1
+                                /\ (cfg.credreq /\ (\E s \in used : NoCred(cfg, s)) => \A s \in used : outcome[s])
+  /\ wire = [s \in Schemes |-> [present |-> FALSE, w |-> <<"">>]] /\ got = [s \in Schemes |-> <<"">>]
+  /\ pc = "send" /\ ri = 1 /\ si = 1 /\ err = "none" /\ calls = <<>> /\ invoked = FALSE /\ rejected = FALSE
 
+\* ---- the sender (request_encoder.go.tpl, or a hand-made request)
+Sent(s) ==
+  LET f == cfg.form[s]
+      w == Words(s, f) IN
+  IF f = "absent" THEN [present |-> FALSE, w |-> <<"">>]
+  ELSE IF cfg.via = "raw" THEN [present |-> TRUE, w |-> w]
+  ELSE IF s = "b" THEN [present |-> TRUE, w |-> <<"Basic", "userpass">>]              \* req.SetBasicAuth
+  ELSE IF /\ OnAuthz(s) /\ Bearerish(s) /\ Len(w) = 1                                 \* isBearer: no space in the token -> "Bearer " + token
+          /\ (w # <<"">> \/ "client.bearer_prefix_on_empty_token" \in Deviations)
+       THEN [present |-> TRUE, w |-> <<"Bearer">> \o w]
+       ELSE [present |-> TRUE, w |-> w]
+Send ==
+  /\ pc = "send"
+  /\ wire' = [s \in Schemes |-> IF s \in Used THEN Sent(s) ELSE wire[s]]
+  /\ pc' = "decode"
+  /\ UNCHANGED <<cfg, outcome, got, ri, si, err, calls, invoked, rejected>>
+
+\* ---- transport + the generated request decoder (request_decoder.go.tpl)
+RECURSIVE DropLead(_), DropTrail(_)
+DropLead(w) == IF Len(w) > 1 /\ w[1] = "" THEN DropLead(Tail(w)) ELSE w
+DropTrail(w) == IF Len(w) > 1 /\ w[Len(w)] = "" THEN DropTrail(SubSeq(w, 1, Len(w) - 1)) ELSE w
+Arrived(s) == IF ~wire[s].present THEN <<"">> ELSE IF InHeader(s) THEN DropTrail(DropLead(wire[s].w)) ELSE wire[s].w
+BasicOK(w) == Len(w) = 2 /\ w[1] \in {"Basic", "basic"} /\ w[2] = "userpass"         \* r.BasicAuth()
+Missing(s) == IF s = "b" THEN ~BasicOK(Arrived(s)) ELSE Arrived(s) = <<"">>
+Strips(s) == InHeader(s) /\ (OnAuthz(s) \/ Bearerish(s) \/ "auth.header_scheme_prefix_stripped" \in Deviations)
+Decoded(s) ==
+  IF s = "b" THEN (IF BasicOK(Arrived(s)) THEN <<"userpass">> ELSE <<"">>)
+  ELSE IF Strips(s) /\ Len(Arrived(s)) > 1 THEN Tail(Arrived(s))                     \* strings.SplitN(cred, " ", 2)[1]
+  ELSE Arrived(s)
+Decode ==
+  /\ pc = "decode"
+  /\ IF cfg.credreq /\ \E s \in Used : Missing(s)
+     THEN rejected' = TRUE /\ pc' = "done" /\ UNCHANGED got                            \* goa.MissingFieldError -> 400, nothing else runs
+     ELSE got' = [s \in Schemes |-> IF s \in Used THEN Decoded(s) ELSE got[s]] /\ pc' = "auth" /\ UNCHANGED rejected
+  /\ UNCHANGED <<cfg, outcome, wire, ri, si, err, calls, invoked>>
+
+\* ---- the generated endpoint (service_endpoint_method.go.tpl)
 \* scopes only mean something for the schemes that declare scopes (JWT, OAuth2)
 RequiredScopes(s, r) == IF s \in {"j", "o"} THEN r.scopes ELSE <<>>
 \* one authorization callback
@@ -75,38 +201,55 @@ AuthCall ==
   /\ LET s == Eff[ri].schemes[si]
          guard == IF si = 1 THEN (ri = 1 \/ err # "none") ELSE err = "none" IN
      IF guard
-     THEN /\ calls' = Append(calls, [scheme |-> s, cred |-> ExpectedCred(s), required |-> RequiredScopes(s, Eff[ri]), ok |-> outcome[s]])
+     THEN /\ calls' = Append(calls, [scheme |-> s, cred |-> got[s], required |-> RequiredScopes(s, Eff[ri]), ok |-> outcome[s]])
           /\ err' = IF outcome[s] THEN "none" ELSE s
      ELSE UNCHANGED <<calls, err>>
   /\ si' = si + 1
-  /\ UNCHANGED <<cfg, outcome, pc, ri, invoked>>
+  /\ UNCHANGED <<cfg, outcome, wire, got, pc, ri, invoked, rejected>>
 NextReq ==
   /\ pc = "auth" /\ ri <= Len(Eff) /\ si > Len(Eff[ri].schemes)
   /\ ri' = ri + 1 /\ si' = 1
-  /\ UNCHANGED <<cfg, outcome, pc, err, calls, invoked>>
+  /\ UNCHANGED <<cfg, outcome, wire, got, pc, err, calls, invoked, rejected>>
 \* requirement k>1 is skipped as a whole when the previous one succeeded: model that by jumping over it
 SkipReq ==
   /\ pc = "auth" /\ ri > 1 /\ ri <= Len(Eff) /\ si = 1 /\ err = "none"
   /\ ri' = ri + 1
-  /\ UNCHANGED <<cfg, outcome, pc, si, err, calls, invoked>>
+  /\ UNCHANGED <<cfg, outcome, wire, got, pc, si, err, calls, invoked, rejected>>
 Decide ==
   /\ pc = "auth" /\ ri > Len(Eff)
   /\ invoked' = (err = "none")
   /\ pc' = "done"
-  /\ UNCHANGED <<cfg, outcome, ri, si, err, calls>>
-Next == (AuthCall /\ ~ENABLED SkipReq) \/ SkipReq \/ NextReq \/ Decide
+  /\ UNCHANGED <<cfg, outcome, wire, got, ri, si, err, calls, rejected>>
+Next == Send \/ Decode \/ (AuthCall /\ ~ENABLED SkipReq) \/ SkipReq \/ NextReq \/ Decide
 Spec == Init /\ [][Next]_vars
 
 ---------------------------------------------------------------------------
+\* C06.  The oracle is written from the caller's side: what was handed over (form), where the design puts it.
 Satisfied(r) == \A j \in 1..Len(r.schemes) : outcome[r.schemes[j]]
-\* C06
-RunIffSatisfied == pc = "done" => (invoked <=> (Eff = <<>> \/ \E i \in 1..Len(Eff) : Satisfied(Eff[i])))
+\* the scheme's place may carry an authorization scheme word in front of the credential
+CarriesSchemeWord(s) == InHeader(s) /\ (OnAuthz(s) \/ Bearerish(s))
+\* the credentials the design's reading of the handed-over form admits
+Reading(s) ==
+  LET f == cfg.form[s] IN
+  IF s = "b" THEN (IF f \in {"bare", "lower"} THEN {<<"userpass">>} ELSE {<<"">>})
+  ELSE CASE f \in {"empty", "absent"} -> {<<"">>}
+         [] f = "bare" -> {<<"tok">>}
+         [] f \in SpacedForms -> IF CarriesSchemeWord(s) THEN {<<"tok">>} ELSE {Words(s, f)}
+         [] f = "spaces" -> IF CarriesSchemeWord(s) THEN {<<"tok">>, <<"", "tok">>} ELSE {Words(s, f)}
+\* a required credential that is not there: the request must not get anywhere
+MustRefuse == cfg.credreq /\ \E s \in Used : NoCred(cfg, s)
+
+RunIffSatisfied == pc = "done" => (invoked <=> (~MustRefuse /\ (Eff = <<>> \/ \E i \in 1..Len(Eff) : Satisfied(Eff[i]))))
 UnsecuredNoCallback == Eff = <<>> => calls = <<>>
-OnlyDesignedSchemes == \A c \in 1..Len(calls) : calls[c].scheme \in UsedSchemes(Eff)
-DenyReturnsCallbackError == pc = "done" /\ ~invoked => \E c \in 1..Len(calls) : calls[c].scheme = err /\ ~calls[c].ok
-CredentialFromDesignedPlace == \A c \in 1..Len(calls) :
-   calls[c].cred = (CASE calls[c].scheme = "b" -> "userpass" [] calls[c].scheme = "k" -> "key"
-                      [] calls[c].scheme = "j" -> "token" [] calls[c].scheme = "o" -> "accesstoken")
+OnlyDesignedSchemes == \A c \in 1..Len(calls) : calls[c].scheme \in Used
+DenyReturnsCallbackError == pc = "done" /\ ~invoked /\ ~rejected => \E c \in 1..Len(calls) : calls[c].scheme = err /\ ~calls[c].ok
+CredentialFromDesignedPlace == \A c \in 1..Len(calls) : calls[c].cred \in Reading(calls[c].scheme)
+NoCredentialNeverRuns == MustRefuse => calls = <<>> /\ ~invoked /\ (pc = "done" => rejected)
+RefusedOnlyWithoutCredential == rejected => MustRefuse
+\* the generated client announces a bearer token in the Authorization header as one ("Bearer tok"), and never invents a credential
+ClientWireForm == pc # "send" /\ cfg.via = "client" => \A s \in Used :
+   /\ (Bearerish(s) /\ OnAuthz(s) /\ cfg.form[s] = "bare" => wire[s] = [present |-> TRUE, w |-> <<"Bearer", "tok">>])
+   /\ (s # "b" /\ ~(Bearerish(s) /\ OnAuthz(s) /\ cfg.form[s] = "bare") => wire[s].w = Words(s, cfg.form[s]))
 \* a satisfied requirement was actually checked: all of its schemes were called and said yes
 GrantIsWitnessed == pc = "done" /\ invoked /\ Eff # <<>> =>
    \E i \in 1..Len(Eff) : \A j \in 1..Len(Eff[i].schemes) :
